@@ -74,7 +74,7 @@ func cmdCheck(args []string) {
 	if t := os.Getenv("VERIF_TIER"); t == "quick" || t == "thorough" {
 		*tier = t
 	}
-	timeout := 10 * time.Second
+	timeout := 15 * time.Second
 	if *tier == "thorough" {
 		timeout = 60 * time.Second
 	}
@@ -199,7 +199,7 @@ func runCheck(repo, verif, prop, tier string, seed int, timeout time.Duration, s
 		}
 		rep.VC.obls = keepO
 	}
-	solveReports(reps, scratch, timeout, 8)
+	solveReports(reps, scratch, timeout, 5)
 	for _, rep := range reps {
 		if rep.Err != nil {
 			continue
@@ -234,6 +234,9 @@ func runCheck(repo, verif, prop, tier string, seed int, timeout time.Duration, s
 		if o.Status == "unsat" {
 			nDis++
 			bySolver[o.Solver]++
+			if o.Secs > 5 {
+				fmt.Printf("SLOW %.1fs %s (%s)\n", o.Secs, o.Name, o.Solver)
+			}
 			continue
 		}
 		// undischarged
